@@ -16,9 +16,12 @@ open Genshi Genshi.Incl Genshi.Sexp
       → ( ok ( S tag ) | ( E tag ) | ( T s ) … ) | ( err NotFound|Syntax|Undefined ) | fuel | unmodelled
     chain <inline|inline-marked|runtime> <fuel> <files> ( ( entry kind data ) … )
         → ( outcome … ) : the requests answered one after the other through one loader
+    loads <files> ( ( name kind ) … ) → ( ( ok | ( err … ) ( prepared … ) ) … ) : loads without rendering, through one loader
     kept <files> <entry> <kind>   → ( ok target … ) | err : resolved targets of the statically named includes
                                     still present in the prepared entry, in document order
     inh <files>            → T | F     (the theorem's hypothesis, with T = all match tags of the file set)
+    inh <files> w          → ( T|F T|F T|F )   inH, inHW (the hypothesis without "every file is well-formed"), inHS (the
+                                               hypothesis of runtime = specification with match templates)
     resolve <pos> <href>   → name | N
 -/
 
@@ -125,7 +128,8 @@ def handle : List Sexp → Option Sexp
       | "inline-marked" => pure (resOut (renderInline files entry kind data fuel))
       | "runtime" => pure (resOut (renderRuntime files entry kind data fuel))
       -- the specification evaluator (an include stands for its target), where `runtime_eq_spec_partial` speaks
-      | "inplace" => pure (if noMtFiles files then resOut (renderSpec files entry kind data fuel) else .atom "na")
+      | "inplace" => pure (if noMtFiles files || inHS (matchTags files) files
+                           then resOut (renderSpec files entry kind data fuel) else .atom "na")
       | _ => none
   | [.atom "chain", .atom mode, fuel, files, .list reqs] => do
       let fuel ← fuel.toNat?
@@ -162,6 +166,24 @@ def handle : List Sexp → Option Sexp
         | _ => none
       pure (.list ((renderSeqF m files fuel [] reqs).map fun x =>
         .list [resOut x.1, .list (x.2.reverse.map fun e => .str e.1)]))
+  | [.atom "loads", files, .list reqs] => do
+      -- `loader.load(name, cls).stream` for every name in turn through one loader with auto_reload off, nothing
+      -- rendered: the outcome and the names of the prepared templates the loader holds afterwards (oldest first);
+      -- a load that raises leaves what was prepared inside it (`loadInlC`)
+      let files ← files? files
+      let reqs ← reqs.mapM fun
+        | .list [.str n, k] => do let k ← kind? k; pure (n, k)
+        | _ => none
+      if !modelled files then pure (.atom "unmodelled") else
+      let names := fun (c : Cache) => Sexp.list (c.reverse.map fun e => .str e.1)
+      let step := fun (acc : Cache × List Sexp) (q : Name × Kind) =>
+        match loadInl files q.1 q.2 acc.1 with
+        | .ok r => (r.2, acc.2 ++ [.list [.atom "ok", names r.2]])
+        | .err e =>
+          let c := loadInlC files q.1 q.2 acc.1
+          (c, acc.2 ++ [.list [resOut (.err e), names c]])
+        | .fuel => (acc.1, acc.2 ++ [.list [.atom "fuel", names acc.1]])
+      pure (.list (reqs.foldl step ([], [])).2)
   | [.atom "kept", files, .str entry, kind] => do
       let files ← files? files
       let kind ← kind? kind
@@ -172,6 +194,11 @@ def handle : List Sexp → Option Sexp
   | [.atom "inh", files] => do
       let files ← files? files
       pure (ofBool (inH (matchTags files) files))
+  | [.atom "inh", files, .atom "w"] => do
+      -- both hypotheses: inH, and inHW (ill-formed files allowed)
+      let files ← files? files
+      pure (.list [ofBool (inH (matchTags files) files), ofBool (inHW (matchTags files) files),
+                   ofBool (inHS (matchTags files) files)])
   | [.atom "resolve", .str pos, .str href] =>
       match resolve pos href with
       | some n => some (.str n)
